@@ -274,3 +274,26 @@ func normalizeSliceIndices(start, end value, length int) (int, int, error) {
 	}
 	return startIdx, endIdx, nil
 }
+
+// deepCopy returns a copy of v that shares no arrays or maps with v.
+func deepCopy(v value) value {
+	switch v := v.(type) {
+	case arrayVal:
+		elements := make([]value, len(v.Elements))
+		for i, e := range v.Elements {
+			elements[i] = deepCopy(e)
+		}
+		return arrayVal{Elements: elements}
+	case mapVal:
+		m := mapVal{
+			order: make([]stringVal, len(v.order)),
+			m:     make(map[stringVal]value, len(v.m)),
+		}
+		copy(m.order, v.order)
+		for key, e := range v.m {
+			m.m[key] = deepCopy(e)
+		}
+		return m
+	}
+	return v
+}
